@@ -696,6 +696,9 @@ def op_st(draw, config, kinds, specs):
         return [kind, i]
     if kind == 'restart':
         return [kind, i, draw(st.sampled_from([0, 0, 1, 3, 8, 20]))]
+    if kind == 'restart_slow':
+        # down long enough to be declared lost (and fenced) by the others
+        return ['restart', i, draw(st.sampled_from([25, 40, 60]))]
     if kind == 'crash_master':
         return [kind, draw(st.sampled_from([0, 0, 10, 30]))]
     if kind == 'exit_running':
